@@ -290,6 +290,7 @@ func genOutbox(r *Rng, prop string, k int, tier string) *RunSpec {
 		}
 	}
 	var reqs []ReqSpec
+	twoQuery := r.Intn(3) == 0
 	for i := 0; i < nPosts; i++ {
 		body := g.post(i, prop == "C03")
 		box := st.Alice
@@ -298,6 +299,13 @@ func genOutbox(r *Rng, prop string, k int, tier string) *RunSpec {
 		}
 		if o.QueryActor && r.Bool() {
 			box = Pick(r, []*ActorDir{st.Quinn, st.Quinn, st.Quent}) // outboxes whose IRIs carry a query string (and differ only there)
+		}
+		if o.QueryActor && nPosts >= 2 && i < 2 && twoQuery {
+			// a bare object to each of two outboxes that differ only in their query string
+			box = []*ActorDir{st.Quinn, st.Quent}[i]
+			body = g.note(i)
+			body["@context"] = asCtx
+			g.addressAll(body, false)
 		}
 		var rq ReqSpec
 		if !o.Social || (o.Federating && r.Intn(5) == 0) {
@@ -1232,7 +1240,7 @@ func init() {
 	register(&PropDef{
 		ID: "C02", Level: "exploration", Engine: "fedsim",
 		Rule: "case = seeded federation graph (2-8 remote actors incl. shared inboxes, a peer server and local actors, 0-4 remote Collections/OrderedCollections/pages nested and cyclic, per-IRI fates unreachable/non-JSON/non-object/unknown-type, random subset of actors with an application-stored inbox, delivery depth 1-4) and one outbox post (client POST or Send) addressed through any of the five properties with IRIs, embedded actors, duplicates, all three Public spellings and the sender; oracle = executable recipient-resolution model on the stored activity vs the BatchDeliver recipients and the Dereference log. distinct = distinct event sequences (which IRIs are fetched and in which order is part of it).",
-		QuickCases: 1200, QuickBudgetS: 60, ThoroughBudgetS: 600,
+		QuickCases: 2000, QuickBudgetS: 150, ThoroughBudgetS: 600,
 		Drive: func(c *DriveCtx, r *Rng, k int) {
 			if k%10 == 0 {
 				// one seam call fails: either the post fails, or (the error being of a kind the library tolerates) the recipients are still right
@@ -1252,7 +1260,7 @@ func init() {
 	register(&PropDef{
 		ID: "C03", Level: "exploration", Engine: "fedsim",
 		Rule: "case = the C02/C05 generator biased towards bto/bcc on the activity and on 1-3 embedded objects, Social only / Federating only (Send) / both, plus a GET of a stored value with bto/bcc at 'object' depth 0-4 (half of the cases concurrently with the delivery) and an auto-accepted Follow carrying bto/bcc; oracle = wire invariant on every payload of an outbox-bound transport and on every handler body, and the hidden recipients' inboxes (model) are among the BatchDeliver recipients.",
-		QuickCases: 1500, QuickBudgetS: 60, ThoroughBudgetS: 600,
+		QuickCases: 4000, QuickBudgetS: 150, ThoroughBudgetS: 600,
 		Drive:  func(c *DriveCtx, r *Rng, k int) { c.Exec(genOutbox(r, "C03", k, c.Tier)) },
 		Oracle: oracleC03,
 		Assumptions: []string{"a payload counts as outbox-originated when the transport was created for an outbox IRI (forwarded payloads use the inbox IRI and are exempt by the statement)"},
@@ -1260,7 +1268,7 @@ func init() {
 	register(&PropDef{
 		ID: "C05", Level: "exploration", Engine: "fedsim",
 		Rule: "case = history of 1-3 (thorough: 1-8) posts, one after another, to one or two outboxes of a server (bare objects, Creates with 1-3 embedded objects and overlapping recipient/attribution sets, nine other activity types; client POST or Send; Social / Federating / both); every third case is additionally swept with every single seam-call fault, every third crashes the server at a random step of the history (what reached the wire must be stored and listed in what survives); the transport is the stub (sync or queued) or, in 1/6 of the cases, the real HttpSigTransport. Oracles: wrap + normalisation model (set semantics) against the values given to Database.Create, per-request ordering NewID < object Create < activity Create < SetOutbox(front, once) < first Transport call, Location = id, outbox history, and 'nothing delivered after a failed persistence step'.",
-		QuickCases: 150, QuickBudgetS: 60, ThoroughBudgetS: 600,
+		QuickCases: 220, QuickBudgetS: 150, ThoroughBudgetS: 600,
 		Drive: func(c *DriveCtx, r *Rng, k int) {
 			if k%3 == 0 {
 				seed := r.s
